@@ -127,7 +127,12 @@ def run(p):
             check_formula(p, t, name, xyz, worst)
     for _ in range(p.n(1500, 60000)):
         t = X.random_set(rng, None, None)
-        check_formula(p, t, None, rng.choice(edge_points(rng)) if rng.random() < 0.05 else gens.rand_xyz(rng), worst)
+        xyz_ = rng.choice(edge_points(rng)) if rng.random() < 0.05 else gens.rand_xyz(rng)
+        if rng.random() < 0.06:
+            # coordinates given in whole metres as integers (Python ints or numpy integers): the same point, another type
+            mk_ = rng.choice([int, np.int64, lambda v: float(int(v))])
+            xyz_ = tuple(mk_(int(round(c))) for c in xyz_)
+        check_formula(p, t, None, xyz_, worst)
     # rotations right at the top of the domain (59.9999999 arcsec is 0.0059999999 in HP notation)
     for rot in (59.9999999, -59.9999999, 59.999, -59.5):
         for axis in range(3):
